@@ -3,7 +3,7 @@ From Coq Require Import List NArith ZArith Bool.
 From GoPdf.Base Require Import Bytes Res.
 From GoPdf.C01 Require Import Lex Obj Num Names Strings Format Scan Wf
   LexProofs NumProofs NamesProofs StringsProofs FormatProofs ScanProofs
-  SortProofs CanonProofs FuelProofs LimitProofs MainProofs.
+  SortProofs CanonProofs FuelProofs LimitProofs ArrayLimitProofs MainProofs.
 Import ListNotations.
 Open Scope N_scope.
 
@@ -137,8 +137,9 @@ Proof.
 Qed.
 
 (* Limits.  The full statement: every value just beyond one of the limits is rejected with a
-   MalformedFileError.  Proved for strings and names (all inputs); for arrays, dictionaries and
-   nesting only the instances below are checked (Examples), hence the name. *)
+   MalformedFileError.  Proved for strings and names (all inputs) and for arrays without references
+   (limits_reject_array); for dictionaries and nesting only the instances below are checked
+   (Examples), hence the name. *)
 Definition limits_reject_full : Prop :=
   forall L p, 0 < max_depth L ->
   (forall s, max_str L <= blen s -> scan_objects L (format p [OStr s]) = Err Malformed) /\
@@ -155,8 +156,17 @@ Theorem limits_reject_partial : forall L,
 Proof. exact limits_reject_lemma. Qed.
 Print Assumptions limits_reject_partial.
 
+(* arrays: more than maxArrayLen elements (none of them a reference) are rejected, whatever the
+   elements are; the fuel is sufficient, so the rejection is not an artefact of the model *)
+Theorem limits_reject_array : forall L p l fuel,
+  1 < max_depth L -> forallb (wf_obj L 2) l = true -> no_refs l = true ->
+  max_arr L < N.of_nat (length l) -> (lsize [OArr l] + 1 <= fuel)%nat ->
+  scan_objects_fuel L fuel (format p [OArr l] ++ [cRB]) = Err Malformed.
+Proof. exact array_limit_lemma. Qed.
+Print Assumptions limits_reject_array.
+
 Definition small_limits : limits := mkLimits 8 6 4 3 3.
-Example limits_reject_array :
+Example limits_reject_array_ex :
   scan_objects small_limits (format false [OArr [OInt 1; OInt 2; OInt 3; OInt 4; OInt 5]]) = Err Malformed /\
   scan_objects small_limits (format false [OArr [OInt 1; OInt 2; OInt 3; OInt 4]]) = Ok ([OArr [OInt 1; OInt 2; OInt 3; OInt 4]], []).
 Proof. split; vm_compute; reflexivity. Qed.
@@ -167,9 +177,11 @@ Example limits_reject_depth :
   scan_objects small_limits (format false [OArr [OArr [OArr []]]]) = Err Malformed /\
   scan_objects small_limits (format false [OArr [OArr []]]) = Ok ([OArr [OArr []]], []).
 Proof. split; vm_compute; reflexivity. Qed.
-(* the boundary finding: an array filled to the limit whose last element is a reference *)
+(* the former boundary defect (fixed): an array filled to the limit whose last element is a
+   reference is read; one element more is rejected, with or without a reference at the end *)
 Example array_limit_edge :
-  scan_objects small_limits (format false [OArr [OInt 1; OInt 2; OInt 3; ORef 5 0]]) = Err Malformed /\
-  wf_list small_limits [OArr [OInt 1; OInt 2; OInt 3; ORef 5 0]] = false /\
-  scan_objects small_limits (format false [OArr [OInt 1; OInt 2; ORef 5 0; OInt 3]]) = Ok ([OArr [OInt 1; OInt 2; ORef 5 0; OInt 3]], []).
+  scan_objects small_limits (format false [OArr [OInt 1; OInt 2; OInt 3; ORef 5 0]]) = Ok ([OArr [OInt 1; OInt 2; OInt 3; ORef 5 0]], []) /\
+  wf_list small_limits [OArr [OInt 1; OInt 2; OInt 3; ORef 5 0]] = true /\
+  scan_objects small_limits (format false [OArr [OInt 1; OInt 2; OInt 3; OInt 4; ORef 5 0]]) = Err Malformed /\
+  scan_objects small_limits (format false [OArr [OInt 1; OInt 2; OInt 3; OInt 4; OInt 5]]) = Err Malformed.
 Proof. repeat split; vm_compute; reflexivity. Qed.
